@@ -1,0 +1,7 @@
+//go:build verif && !race
+// +build verif,!race
+
+package verifhook
+
+// counting: arrivals are counted with atomic adds.
+const counting = true
